@@ -32,7 +32,7 @@ def async_sources(tier, seed=0):
     out.append(dict(kind="async", name="async.H4.3eps.rr", spec=H.H4((1, 6), (1, 1, 3)), user=THREE, policy="rr"))
     out.append(dict(kind="async", name="async.H1.1eps.rev", spec=H.H1((1, 6)), user=EP5, policy="rev"))
     fam = list(H.fasync_family(1))
-    step = 600 if tier == "quick" else 40
+    step = 600 if tier == "quick" else 150
     for i, (n, s) in enumerate(fam):
         if (i + seed) % step == 0:
             out.append(dict(kind="async", name=f"async.{n}", spec=s, user=TWO if i % 2 else EP5, policy=("prio", "rr", "rev")[i % 3]))
